@@ -18,8 +18,8 @@ LEVEL_TEXT["C08"] = (
 )
 
 PROPS["C08"] = {
-    "gen": [],
-    "lean_props": "DspVerif.Props.C08",
+    "gen": ["Cmplx", "StepsBase", "StepsArray", "StepsResample"],
+    "lean_props": ["DspVerif.Props.C08", "DspVerif.Props.C08Gen"],
     "harness": [
         {"src": "c08.cpp", "cfg": "rel", "tol": {"*": (1e-12, 0.0)}},
         {"src": "c08.cpp", "cfg": "asan", "tiers": ["thorough"], "tol": {"*": (1e-12, 0.0)}},
